@@ -141,7 +141,7 @@ func outLast() any                               { return nil }
 //@ func (*Path).UnmarshalText
 //@ props C02 C04
 //@ modifies path.AST
-//@ ensures [C02] delegates: ncalls(path.UnmarshalBinary) == 1 && sameSlice(callarg[[]byte](path.UnmarshalBinary, "data"), data) && r0 == callret[error](path.UnmarshalBinary, 0)
+//@ ensures [C02 C04] delegates: ncalls(path.UnmarshalBinary) == 1 && sameSlice(callarg[[]byte](path.UnmarshalBinary, "data"), data) && r0 == callret[error](path.UnmarshalBinary, 0)
 
 //@ func (*Path).MarshalBinary
 //@ props C02
